@@ -314,11 +314,7 @@ Lemma status_class_reported : forall e, In e status_classes ->
   standard_errors (error_map SS3) e = e /\ isinst e K_ChunkStoreError = true.
 Proof.
   intros e H. destruct status_classes_ok as [A _]. rewrite forallb_forall in A. specialize (A e H).
-  apply andb_true_iff in A. destruct A as [A1 A2]. unfold exn_eqb in A2. apply Z.eqb_eq in A2.
-  split; [|exact A1].
-  (* exn_code is injective *)
-  revert A2. generalize (standard_errors (error_map SS3) e). intros x Hx.
-  destruct x, e; try reflexivity; vm_compute in Hx; discriminate.
+  apply andb_true_iff in A. destruct A as [A1 A2]. apply exn_eqb_eq in A2. split; [exact A2|exact A1].
 Qed.
 
 Lemma every_error_status_raises : forall ign s,
@@ -356,7 +352,7 @@ Proof.
         destruct (raise_for_status_total ign s Hs Hi) as [e [E1 E2]]. rewrite E1.
         destruct (status_class_reported e E2) as [S1 S2]. rewrite S1. eexists. split; [reflexivity|exact S2].
     + eexists. split; [reflexivity|]. simpl in Ha.
-      assert (In e all_exn) as Hin by (destruct e; vm_compute; tauto).
+      pose proof (all_exn_complete e) as Hin.
       specialize (RQ e Hin). rewrite Ha in RQ. simpl in RQ. exact RQ.
 Qed.
 
